@@ -176,17 +176,23 @@ func (ms *MessageStreamer) Go(ctx context.Context, conn StreamConnection) error 
 			}
 			if len(msg.Delay) != 0 {
 				delay := time.Duration(msg.DelaySeconds * float64(time.Second))
-				if err := ms.doDelay(ctx, msg.Delay, delay); err != nil {
-					return err
-				}
 				if delay <= 0 {
 					// a zero deadline is how gRPC clients nack: the messages are up
 					// for redelivery and no longer outstanding on this stream, so they
-					// must stop counting against its flow control
+					// must stop counting against its flow control. This has to happen
+					// before the deliveries become due again: once they are, the sender
+					// may hand them out anew, and that new hand-out must stay counted.
 					mu.Lock()
 					for _, id := range msg.Delay {
 						delete(pending, id)
 					}
+					mu.Unlock()
+				}
+				if err := ms.doDelay(ctx, msg.Delay, delay); err != nil {
+					return err
+				}
+				if delay <= 0 {
+					mu.Lock()
 					tryWake()
 					mu.Unlock()
 				}
